@@ -78,11 +78,15 @@ pub fn run(args: &Args, rep: &mut Report) {
         for r in 0..runs {
             let (p, pseed, pm) = run_variant(&mut rng, &base);
             let path = format!("{}/c{}r{}.agc", dir, c, r);
-            mon::log_start();
+            mon::set_case(c, jobj(&[("class", c.to_string()), ("run", r.to_string()), ("params", p.json())]));
             mon::perturb_on(pseed, pm, 800);
-            let res = catch_unwind(AssertUnwindSafe(|| drive::create(&path, &set, &p)));
+            let mut log = Vec::new();
+            let res = catch_unwind(AssertUnwindSafe(|| {
+                let (r, l) = drive::create_logged(&path, &set, &p, &drive::DriveOpts::default());
+                log = l;
+                r
+            }));
             mon::perturb_off();
-            let log = mon::log_stop();
             rep.evaluations += 1;
             let desc = format!("library t={} cap={} perturb={}:{}", p.threads, p.capacity, pseed, pm);
             match res {
